@@ -76,7 +76,8 @@ func Run(c *verdict.Ctx) int {
 	}
 	c.Level = "exploration"
 	c.Rule = "sequential history: >= 3 admissions, refusals of >= 2 different classes and >= 1 Update that removed a committed tx, distinct by (version, configuration, sequence of operation outcomes); " +
-		"concurrent history: >= 2 admissions, >= 1 pair of overlapping operations and >= 1 Update, distinct by (version, configuration, recorded history)"
+		"concurrent history: >= 2 admissions, >= 1 pair of overlapping operations and >= 1 Update, distinct by (version, configuration, recorded history); " +
+		"gated case: >= 2 first-time CheckTx answered by the application after all were in flight, and a tx dropped after the application accepted it or an exact fit, distinct by (configuration, client, answer order, final pool)"
 	c.Assume(
 		"the reference pool model (ordered list, limits, outcome validation) and the interval/linearizability encoding are written from the property statement and are trusted",
 		"the application verdict is a deterministic function of (tx, application height); gas, priority and sender are constants of a tx",
@@ -84,6 +85,7 @@ func Run(c *verdict.Ctx) int {
 		"byte accounting of reaps follows the documented rule (size in the block's Data message: tag + length varint + bytes per tx), cross-checked once against the protobuf encoder",
 		"pool contents are read with reflection from the TxsFront walk, only at quiescent points",
 		"github.com/anishathalye/porcupine v1.3.0 decides linearizability",
+		"gated stage: the application holds its answers until every caller has passed (counting pre-check hook) or been refused at the mempool's admission checks; with v0 over the local client the answers are released one per finished callback, so the callbacks do not overlap",
 		"v1 arrival order is wall-clock time (time.Now().UTC()): a history in which the wall clock is seen not to advance between two submissions is counted inconclusive",
 	)
 	if !selfTest(c) {
@@ -110,6 +112,10 @@ func Run(c *verdict.Ctx) int {
 		case concStream:
 			res := runConcCases(c, []int{ref.Index}, 1)
 			mergeConc(c, res)
+		case gatedStream:
+			dir := verdict.TmpDir("c12g-")
+			runGatedCase(c, dir, ref.Index)
+			os.RemoveAll(dir)
 		default:
 			c.HarnessError("unknown stream %q in replay file", ref.Stream)
 		}
@@ -121,6 +127,11 @@ func Run(c *verdict.Ctx) int {
 
 	nConc := c.N(200, 10000)
 	runConcStage(c, nConc)
+
+	runGated(c, c.N(240, 6000))
+	if c.Counter("gated.cases") == 0 || c.Counter("gated.dropped_after_app_accepted") == 0 {
+		c.HarnessError("the gated stage observed nothing (cases=%d, txs dropped after the application accepted them=%d)", c.Counter("gated.cases"), c.Counter("gated.dropped_after_app_accepted"))
+	}
 
 	// inconclusive cases are allowed only below a cap
 	if t, n := c.Counter("conc.lin_timeout")+c.Counter("conc.histories_watchdog"), c.Counter("conc.histories"); n > 0 && t*10 > n {
